@@ -104,6 +104,19 @@ def _impl(tier, seed, search):
                         if len(got_) == 3:
                             for k_ in range(3): L.close(f'Twist3(multi).{nm_}', got_[k_], np.asarray(want_[k_], float), TOL, max(1.0, float(np.max(np.abs(want_[k_])))), dict(inp, k=k_),
                                                         what=f'value {k_} of {nm_} on a 3-valued Twist3 is not {nm_} of twist {k_}', sig=f'Twist3(multi).{nm_}')
+            # several unit twists with one angle each (vector theta of the same length): motion k is exp(theta_k S_k)
+            if i % 5 == 2:
+                def multi_exp_vec():
+                    Ss_ = [Twist3.Revolute(geom.axis_scaled(g), g.normal(size=3)).S, Twist3.Prismatic(geom.axis_scaled(g)).S, S.S]
+                    ths_ = [th, -0.5 * th + 0.3, 0.0]
+                    return ([np.asarray(x_, float) for x_ in Twist3([x_.copy() for x_ in Ss_]).exp(ths_).data], [np.asarray(x_, float) for x_ in Twist3([x_.copy() for x_ in Ss_[:2]]).exp(np.array(ths_[:2])).data],
+                            [Twist3(x_).exp(t_).A for x_, t_ in zip(Ss_, ths_)])
+                ok2, r = L.noraise('Twist3(multi).exp(vector)', multi_exp_vec, inp, 'exp(vector theta) of a multi-valued Twist3 (one angle per twist)', sig='Twist3(multi):exp-vector:raises')
+                if ok2:
+                    for nn_, got_ in ((3, r[0]), (2, r[1])):
+                        L.check('Twist3(multi).exp(vector):len', len(got_) == nn_, inp, f'{nn_} twists with {nn_} angles give {len(got_)} motions', sig='Twist3(multi).exp(vector)')
+                        if len(got_) == nn_:
+                            for k_ in range(nn_): L.close('Twist3(multi).exp(vector)', got_[k_], r[2][k_], TOL, max(1.0, geom.tmag(r[2][k_])), dict(inp, k=k_), what=f'motion {k_} of a multi-valued twist exponentiated with one angle per twist is not exp(theta_k S_k)', sig='Twist3(multi).exp(vector)')
             # several unit twists held by one object: pitch, theta and the parts are reported value by value
             if i % 5 == 0:
                 def multi_q():
@@ -118,6 +131,7 @@ def _impl(tier, seed, search):
                     if np.shape(r[0]) == (3,):
                         L.close('Twist3(multi).pitch', r[0], np.zeros(3), TOL, r[7], inp, what='pitch of revolute unit twists held by one object is not 0 for each', sig='Twist3(multi).pitch')
                         L.close('Twist3(multi).pitch=single', r[0], r[4], TOL, r[7], inp, sig='Twist3(multi).pitch')
+                    L.check('Twist3(multi).theta:len', np.shape(r[1]) == (3,), inp, f'theta() of 3 twists has shape {np.shape(r[1])}', sig='Twist3(multi).theta', observed=np.asarray(r[1]).tolist())
                     if np.shape(r[1]) == (3,): L.close('Twist3(multi).theta', r[1], np.ones(3), TOL, 1.0, inp, sig='Twist3(multi).theta')
                     if np.shape(r[2]) == (3, 3): L.close('Twist3(multi).v', r[2], r[5], TOL, r[7], inp, sig='Twist3(multi).v'); L.close('Twist3(multi).w', r[3], r[6], TOL, 1.0, inp, sig='Twist3(multi).w')
             ok2, r = L.noraise('Revolute.exp(deg)', lambda: (S.exp(math.degrees(th), units='deg').A, S.exp(th).A), inp, 'S.exp(theta, units=deg)')
